@@ -6,8 +6,8 @@ set -u
 cd "$(dirname "$0")/.."
 . ./env.sh
 id="$1"; ddir="$2"; rx="$3"; shift 3
-src=/tmp/seed
-out=seeded/$id; mkdir -p "$out"
+src=${SEED_SRC:-/tmp/seed}
+out=seeded/$id${SEED_SUFFIX:-}; mkdir -p "$out"
 cp $src/$id-patch.diff "$out/patch.diff"; cp $src/$id-demo_test.go "$out/demo_test.go"; cp $src/$id-report.md "$out/agent-report.md" 2>/dev/null
 log="$out/confirm.log"; : > "$log"
 wt=/tmp/sc-$id
